@@ -108,8 +108,29 @@ func nnsLedgerFns(cx *CheckCtx) (bal, sup *ssa.Function) {
 		return nil, nil
 	}
 	a := cx.run(m)
-	bal = siteFunc(a, func(s *Site) bool { return isStore(s) && keyFamily(s.Args[1]) == pfxBalance })
-	sup = siteFunc(a, func(s *Site) bool { return isStore(s) && keyFamily(s.Args[1]) == pfxSupply })
+	// the helper = the nearest frame above the store with the ledger signature (the store itself may sit in a
+	// helper of the helper: one for the balance counter, one for the token index)
+	up := func(fam string, nparams int) *ssa.Function {
+		var res *ssa.Function
+		for _, s := range a.Sites(func(s *Site) bool { return isStore(s) && keyFamily(s.Args[1]) == fam }) {
+			var f *ssa.Function
+			for c := s.Ctx; c != nil && c.parent != nil; c = c.parent {
+				if len(c.fn.Params) == nparams {
+					f = c.fn
+					break
+				}
+			}
+			if f == nil {
+				f = s.Ctx.fn
+			}
+			if res != nil && res != f {
+				return nil
+			}
+			res = f
+		}
+		return res
+	}
+	bal, sup = up(pfxBalance, 4), up(pfxSupply, 2)
 	if bal == nil || len(bal.Params) != 4 {
 		cx.undecided("anchor", nnsPkg+".updateBalance", "Register does not write the owner balance through one helper (ctx, token, account, diff)", "")
 		bal = nil
@@ -850,7 +871,12 @@ func runC10(cx *CheckCtx) {
 							continue
 						}
 						frs := fnParam(ptb, fn, 2)
-						if step == -1 && start == ptb.binop(token.SUB, ptb.mk("len", "", 0, frs), ptb.constInt(1), intType) && boundOf(ptb, k, cond, false) == fnParam(ptb, fn, 1) {
+						last := ptb.binop(token.SUB, ptb.mk("len", "", 0, frs), ptb.constInt(1), intType)
+						if step == -1 && start == last && boundOf(ptb, k, cond, false) == fnParam(ptb, fn, 1) {
+							good = true
+						}
+						// the same levels counted upwards: level = 0 … last − first, the label read being last − level
+						if z, isZ := start.IntConst(); isZ && z == 0 && step == 1 && boundOf(ptb, k, cond, true) == ptb.binop(token.SUB, last, fnParam(ptb, fn, 1), intType) {
 							good = true
 						}
 					}
